@@ -274,6 +274,9 @@ package proto
 //@   ensures inv_idx: pa_idx(pr.nodes, pr.indices, pr.indexOffset)
 //@   ensures inv_par: pa_par(pr.nodes, pr.indexOffset)
 //@   ensures inv_size: len(pr.indices) == len(pr.nodes)
+// whenever finalization really moves (the anchor node is known, it is not the first node, and a head below it is found), the
+// finalized root is afterwards known at the finalized slot - whatever the sink did, and whatever roots the pruned nodes carried
+//@   ensures slot_recorded: old(has(pr.indices, NodeRef(anchorSlot, anchorRoot))) && old(pr.indices[NodeRef(anchorSlot, anchorRoot)]) != old(pr.indexOffset) && err == nil ==> has(pr.blockSlots, anchorRoot) && pr.blockSlots[anchorRoot] == anchorSlot
 
 // ---------------------------------------------------------------- vote store (C09)
 
